@@ -129,12 +129,16 @@ def plan_session(WM, WN, spec):
     counter = [0]
     def values(W, m):
         g = W.gen
-        g.nonascii = rng.random() < 0.2
+        x = rng.random()
+        g.nonascii = x < 0.2
+        g.edge = 0.2 <= x < 0.4            # a string from the edges of the domain in every string position (c14_values.py)
+        g.edge_long_cap, g.edge_long_left = 32768, 1      # a message must fit 255 PRUDP fragments
         try:
             args = [g.gen(v["type"], cfg, 0, False) for v in m["request"]]
+            g.edge_long_left = 1
             rets = [g.gen(v["type"], cfg, 0, len(m["response"]) == 1 and v["type"]["name"] != "anydata") for v in m["response"]]
         finally:
-            g.nonascii = False
+            g.nonascii = False; g.edge = False
         return args, rets
     def mk(kind, d, m=None):
         if kind == "nr":
